@@ -173,7 +173,7 @@ func classifyDaemonDump(dump string) (bool, string) {
 			mainWaiting = true
 		}
 	}
-	var stuck []string
+	var stuck, polling []string
 	for _, g := range gs {
 		if !g.has("github.com/metal-toolbox/audito-maldito/") || g.has("errgroup.(*Group).Wait") {
 			continue
@@ -192,9 +192,21 @@ func classifyDaemonDump(dump string) (bool, string) {
 			if blockedInFifoOpen(g) {
 				stuck = append(stuck, "blocked in a FIFO open/read syscall in namedpipe Ingest")
 			}
+		case "sleep":
+			// time.Sleep called from the daemon's own code: a polling loop that
+			// has not looked at the stop request for the whole watchdog
+			for _, f := range g.Frames {
+				if strings.Contains(f, "github.com/metal-toolbox/audito-maldito/") {
+					polling = append(polling, "sleeping in "+f)
+					break
+				}
+			}
 		case "running", "runnable":
 			return false, "goroutine " + g.ID + " is " + g.State
 		}
+	}
+	if len(polling) > 0 && !mainWaiting {
+		return true, "start-up polling loop outlived the watchdog: " + strings.Join(polling, "; ")
 	}
 	if mainWaiting && len(stuck) > 0 {
 		return true, "main parked in errgroup.Wait; " + strings.Join(stuck, "; ")
